@@ -72,14 +72,16 @@ def classify(c, r):
     if t[0] == "Q":
         return f"Q {res}"
     try:
-        fam = ("bc" if t[2].startswith("BC") else "astc" if t[2].startswith("ASTC") else
+        fam = ("bc" if t[2].startswith("BC") and not t[2].startswith("BC6") else
+               "noenc" if t[2].startswith("ASTC") or t[2].startswith("BC6") else
                "biplanar" if t[2] in ("NV12", "P010", "P016") else "uncompressed")
         w, h = int(t[3]), int(t[4])
         size = "empty" if w == 0 or h == 0 else "1x1" if (w, h) == (1, 1) else \
-            "mod4=0" if w % 4 == 0 and h % 4 == 0 else "even" if w % 2 == 0 and h % 2 == 0 else "odd"
-        prec = ["u8", "u16", "f32"][int(t[5]) // 4]
-        content = t[7] if prec == "f32" else "int"
-        fault = "fault" if t[13] != "-" else "nofault"
-        return f"{fam} {size} {prec}/{content} {t[9]} {fault} -> {res}"
+            "even" if w % 2 == 0 and h % 2 == 0 else "odd"
+        f32 = int(t[5]) >= 8
+        if f32 and t[7] not in ("ord", "zero", "max"):
+            q = "" if t[9] == "fast" or fam != "bc" else " slowq"
+            return f"{'bc' if fam == 'bc' else 'other'} f32:{t[7]}{q} -> {res}"
+        return f"{fam} {size} -> {res}"
     except Exception:
         return f"{t[0]} {res}"
